@@ -3,6 +3,7 @@ package main
 // Calls: contracts, inlining with merge, extern models, havoc; returns and defers.
 
 import (
+	"regexp"
 	"fmt"
 	"go/token"
 	"go/types"
@@ -116,7 +117,7 @@ func (e *Engine) callStatic(st *State, fr *Frame, res ssa.Value, callee *ssa.Fun
 	}
 	// 2. contract
 	if con := e.P.contractFor(callee); con != nil && !con.has("inline") && !e.forceInline(callee) {
-		e.applyContract(st, fr, res, callee, con, args, pos)
+		e.applyContract(st, fr, res, callee, con, args, env, pos)
 		return nil, true
 	}
 	// 3. inline
@@ -285,6 +286,7 @@ func (e *Engine) merge(subs []*State, prePC int, res ssa.Value) *State {
 	base := subs[0]
 	nfr := len(base.frames)
 	conds := make([]string, len(subs))
+	var factsOf []string
 	for i, s := range subs {
 		if len(s.frames) != nfr || len(s.pc) < prePC || s.A != base.A {
 			return nil
@@ -300,7 +302,9 @@ func (e *Engine) merge(subs []*State, prePC int, res ssa.Value) *State {
 		if len(s.top().defers) != len(base.top().defers) {
 			return nil
 		}
-		conds[i] = and(s.pc[prePC:]...)
+		cs, fs := s.split(prePC)
+		conds[i] = and(cs...)
+		factsOf = append(factsOf, and(fs...))
 	}
 	// differing heap keys
 	keys := map[string]bool{}
@@ -352,7 +356,14 @@ func (e *Engine) merge(subs []*State, prePC int, res ssa.Value) *State {
 		m.facts[p] = true
 	}
 	m.assume(or(conds...))
-	// facts common to all branches can be kept cheaply: the disjunction implies them
+	for i := range subs {
+		m.assume(implies(conds[i], factsOf[i]))
+	}
+	for k := range m.conds {
+		if k >= prePC {
+			delete(m.conds, k)
+		}
+	}
 	chain := func(get func(s *State) (Val, bool)) (Val, bool) {
 		last, ok := get(subs[len(subs)-1])
 		if !ok {
@@ -584,7 +595,7 @@ func (e *Engine) invoke(st *State, fr *Frame, res ssa.Value, c *ssa.CallCommon, 
 			e.P.reg.mu.Lock()
 			dt := e.P.reg.tagType[id]
 			e.P.reg.mu.Unlock()
-			if dt != nil {
+			if dt != nil && dt != types.Type(externErrType) {
 				if m := e.P.prog.LookupMethod(dt, c.Method.Pkg(), c.Method.Name()); m != nil {
 					rv := e.unboxIface(st, recv, dt)
 					return e.callStatic(st, fr, res, m, nil, append([]Val{rv}, args...), c, pos)
@@ -599,9 +610,15 @@ func (e *Engine) invoke(st *State, fr *Frame, res ssa.Value, c *ssa.CallCommon, 
 	}
 	impls := e.P.implementers(c.Value.Type())
 	closed := e.P.closedWorld(c.Value.Type())
-	if recv.K == KIface && len(impls) > 0 && len(impls) <= 24 {
+	if recv.K == KIface && len(impls) > 0 && (len(impls) <= 24 || (e.wantsDispatch(mname) && len(impls) <= 160)) {
 		// try: every implementer's method is a pure summary -> ite chain
 		if v, ok := e.dispatchPure(st, fr, c, recv, args, impls, closed); ok {
+			if len(impls) > 8 && (v.K == KPtr || v.K == KInt || v.K == KBool || v.K == KStr) && len(v.comps()) == 1 && v.Ty != nil {
+				// name the big ite chain once so that later formulas stay small
+				n := e.fresh("r.dispatch."+mname, scalarSort(v.Ty))
+				st.assume(eq(n, v.T))
+				v.T = n
+			}
 			e.bindResult(st, res, v)
 			return nil, true
 		}
@@ -694,6 +711,12 @@ func (e *Engine) pureSummary(st *State, fn *ssa.Function, args []Val, cond strin
 		}
 	}
 	sc := st.clone()
+	if len(sc.frames) == 0 {
+		// evaluated from a postcondition (the root frame is gone): give the summary a base frame
+		sc.frames = []*Frame{{fn: e.fn, regs: map[ssa.Value]Val{}, cells: map[*ssa.Alloc]int{}, dummy: true}}
+	}
+	e.inSummary++
+	defer func() { e.inSummary-- }()
 	sc.assume(cond)
 	prePC := len(sc.pc)
 	saveObls, saveOrder := len(e.oblOrder), e.oblOrder
@@ -770,7 +793,13 @@ func (e *Engine) pureSummary(st *State, fn *ssa.Function, args []Val, cond strin
 		if v.K != acc.K {
 			return Val{}, false
 		}
-		acc = e.iteVal(and(s.pc[prePC:]...), v, acc)
+		cs, _ := s.split(prePC)
+		acc = e.iteVal(and(cs...), v, acc)
+	}
+	// assumptions made on the way (type invariants of loaded values ...) hold under their branch
+	for _, s := range subs {
+		cs, fs := s.split(prePC)
+		st.assume(implies(and(append([]string{cond}, cs...)...), and(fs...)))
 	}
 	// heap arrays first touched inside the summary must be known to the caller state too
 	for _, s := range subs {
@@ -932,9 +961,10 @@ type SpecEnv struct {
 	pkg  *types.Package
 	fn   *ssa.Function
 	fr   *Frame // for resolving named locals (root only)
+	free map[string]Val // captured variables (closures): name -> address of the captured cell
 }
 
-func (e *Engine) calleeEnv(callee *ssa.Function, args []Val) *SpecEnv {
+func (e *Engine) calleeEnv(callee *ssa.Function, args []Val, bind []Val) *SpecEnv {
 	env := &SpecEnv{vars: map[string]Val{}, fn: callee}
 	if callee.Pkg != nil {
 		env.pkg = callee.Pkg.Pkg
@@ -948,6 +978,16 @@ func (e *Engine) calleeEnv(callee *ssa.Function, args []Val) *SpecEnv {
 				a = e.retype(a, p.Type())
 			}
 			env.vars[p.Name()] = a
+		}
+	}
+	if len(bind) == len(callee.FreeVars) && len(bind) > 0 {
+		env.free = map[string]Val{}
+		for i, fv := range callee.FreeVars {
+			b := bind[i]
+			if b.Ty == nil {
+				b.Ty = fv.Type()
+			}
+			env.free[fv.Name()] = b
 		}
 	}
 	return env
@@ -992,9 +1032,12 @@ func (e *Engine) bindResults(env *SpecEnv, sig *types.Signature, rs []Val) {
 	}
 }
 
-func (e *Engine) applyContract(st *State, fr *Frame, res ssa.Value, callee *ssa.Function, con *Contract, args []Val, pos token.Pos) {
+func (e *Engine) applyContract(st *State, fr *Frame, res ssa.Value, callee *ssa.Function, con *Contract, args []Val, bind []Val, pos token.Pos) {
 	e.usedContracts[shortFn(callee)] = true
-	env := e.calleeEnv(callee, args)
+	if con.Extern {
+		e.usedExterns[callee.String()+" (ASSUMED contract, not proved: "+contractSummary(con)+")"] = true
+	}
+	env := e.calleeEnv(callee, args, bind)
 	for _, a := range args {
 		e.escape(st, a)
 	}
@@ -1034,7 +1077,19 @@ func (e *Engine) applyContract(st *State, fr *Frame, res ssa.Value, callee *ssa.
 			}
 		}
 	default:
-		e.foreignOrFullHavoc(st, callee, "contract without frame: "+shortFn(callee))
+		// `preserves KEY...` (only with by-induction): arrays assumed unchanged at return -- an
+		// UNCHECKED assumption that is listed in the evidence
+		keep := con.preserved()
+		if len(keep) > 0 && con.has("by-induction") {
+			e.uncheckedAssumes[shortFn(callee)+" leaves the heap arrays matching {"+strings.Join(keep, " ")+"} as they were at entry"] = true
+		}
+		if len(keep) > 0 && callee != nil {
+			base := e.P.effectOf(callee)
+			eff := &Effect{All: base.All, Except: base.Except, Ext: base.Ext, Keys: base.Keys, Parts: base.Parts, Preserve: keep}
+			e.havocEffect(st, eff, "contract without frame: "+shortFn(callee))
+		} else {
+			e.foreignOrFullHavoc(st, callee, "contract without frame: "+shortFn(callee))
+		}
 	}
 	// the callee may have allocated (allocation is not a write to existing memory)
 	{
@@ -1048,7 +1103,7 @@ func (e *Engine) applyContract(st *State, fr *Frame, res ssa.Value, callee *ssa.
 	if con.has("stable") && sig.Results().Len() >= 1 {
 		// the result is a function of the arguments alone (e.g. the name of a file object)
 		e.stableMode = true
-		rv := e.pureResult(pre, "stable."+callee.String(), args, e.resultTypeOfSig(sig), true)
+		rv := e.pureResult(st, "stable."+callee.String(), args, e.resultTypeOfSig(sig), true)
 		e.stableMode = false
 		if sig.Results().Len() == 1 {
 			rs = []Val{rv}
@@ -1064,6 +1119,9 @@ func (e *Engine) applyContract(st *State, fr *Frame, res ssa.Value, callee *ssa.
 	for _, c := range con.get("ensures") {
 		if strings.Contains(c.Text, "$") {
 			continue // mentions locals of the callee: a proof obligation there, not visible to callers
+		}
+		if e.forgets(c.Label) {
+			continue // `forget REGEX`: the function under verification does not need this fact (sound: fewer assumptions)
 		}
 		nerr, nnote := len(e.specErrors), len(e.notes)
 		g := e.evalSpecBool(st, pre, c.Expr, env)
@@ -1182,6 +1240,16 @@ func (e *Engine) havocLoc(st, pre *State, loc SExpr, env *SpecEnv) {
 			return
 		}
 	case SSel:
+		if pt, addr, ok := e.structAddr(pre, pre, x.X, env); ok {
+			if s, ok := isStruct(pt); ok {
+				for i := 0; i < s.NumFields(); i++ {
+					if s.Field(i).Name() == x.Name {
+						e.storeField(st, pt, addr, i, e.freshVal(st, "hv."+x.Name, s.Field(i).Type()))
+						return
+					}
+				}
+			}
+		}
 		base := e.evalSpec(pre, pre, x.X, env)
 		if x.Name == "all" || x.Name == "_" { // x.all : every field of the object(s) x denotes
 			e.havocObject(st, base)
@@ -1400,6 +1468,29 @@ func (e *Engine) pureResult(st *State, name string, args []Val, rt types.Type, d
 		}
 		return Val{}, false
 	}
+	mk0 := mk
+	mk = func(suffix string, t types.Type) (Val, bool) {
+		if sl, ok := t.Underlying().(*types.Slice); ok && e.stableMode && len(leaves(sl.Elem())) == 1 {
+			// a slice result of a stable function: same arguments, same backing array and length
+			fb := sym(name + suffix + ".base/" + strings.Join(sorts, ","))
+			fl := sym(name + suffix + ".len/" + strings.Join(sorts, ","))
+			var bt, lt string
+			if len(terms) == 0 {
+				e.decl(fb, "Int")
+				e.decl(fl, bvSort(64))
+				bt, lt = fb, fl
+			} else {
+				e.declFun(fb, "("+strings.Join(sorts, " ")+") Int")
+				e.declFun(fl, "("+strings.Join(sorts, " ")+") "+bvSort(64))
+				bt = "(" + fb + " " + strings.Join(terms, " ") + ")"
+				lt = "(" + fl + " " + strings.Join(terms, " ") + ")"
+			}
+			v := Val{K: KSlice, Ty: t, T: bt, X: []string{bvLit(0, 64), lt, lt}}
+			e.typeInv(st, v)
+			return v, true
+		}
+		return mk0(suffix, t)
+	}
 	if tup, ok := rt.(*types.Tuple); ok {
 		v := Val{K: KTuple, Ty: rt}
 		for i := 0; i < tup.Len(); i++ {
@@ -1580,4 +1671,56 @@ func (e *Engine) resultTypeOfSig(sig *types.Signature) types.Type {
 		return sig.Results().At(0).Type()
 	}
 	return sig.Results()
+}
+
+// forgets: the contract under verification asked not to assume callee postconditions with this label.
+func (e *Engine) forgets(label string) bool {
+	if e.con == nil || label == "" {
+		return false
+	}
+	for _, c := range e.con.get("forget") {
+		for _, a := range c.Args {
+			if re, err := regexp.Compile(a); err == nil && re.MatchString(label) {
+				return true
+			}
+		}
+	}
+	return false
+}
+
+func contractSummary(con *Contract) string {
+	var parts []string
+	for _, c := range con.Clauses {
+		switch c.Kind {
+		case "pure", "stable":
+			parts = append(parts, c.Kind)
+		case "requires", "ensures", "assigns", "ghost-effect":
+			t := c.Kind + " " + c.Text
+			if len(t) > 160 {
+				t = t[:160] + "..."
+			}
+			parts = append(parts, t)
+		}
+	}
+	s := strings.Join(parts, "; ")
+	if len(s) > 700 {
+		s = s[:700] + "..."
+	}
+	return s
+}
+
+// wantsDispatch: `dispatch METHOD...` in the contract under verification asks for the exact
+// ite-chain over every implementer of an interface method even when there are many of them.
+func (e *Engine) wantsDispatch(m string) bool {
+	if e.con == nil {
+		return false
+	}
+	for _, c := range e.con.get("dispatch") {
+		for _, a := range c.Args {
+			if a == m {
+				return true
+			}
+		}
+	}
+	return false
 }
